@@ -146,7 +146,7 @@ def value_sources(fn, e, at_ev, depth=4):
         x, at, d = work.pop()
         if not isinstance(x, dict):
             continue
-        if x.get('k') == 'var' and x.get('sc') in ('l', 'p') and d < depth:
+        if x.get('k') == 'var' and x.get('sc') in ('l', 'p') and d < depth and not str(x.get('ty', '')).endswith(']'):
             defs, ent = fn.reaching_defs(x['n'], at)
             if ent:
                 entry = True
